@@ -432,3 +432,32 @@ Proof.
   intros H. unfold is_excluded. pose proof forbidden_in_h23_exclude as T.
   rewrite forallb_forall in T. now apply T.
 Qed.
+
+(* HTTP/1.1: only the exact keys of the writer's table are "handled by the writer"; any other
+   spelling of those names (user-agent, HOST, content-length, ...) is not in the table ... *)
+Definition h1_writer_handled : list bytes :=
+  [bs "Host"; bs "User-Agent"; bs "Content-Length"; bs "Transfer-Encoding"; bs "Trailer"].
+
+Lemma h1_exclude_is_the_table : h1_exclude = [bs "Content-Length"; bs "Host"; bs "Trailer"; bs "Transfer-Encoding";
+                                              bs "User-Agent"; header_order_key; pseudo_header_order_key].
+Proof. reflexivity. Qed.
+
+Lemma h1_other_spelling_not_excluded k :
+  In (to_lower k) (map to_lower h1_writer_handled) -> ~ In k h1_writer_handled -> mem_bytes k h1_exclude = false.
+Proof.
+  intros Hl Hn. apply mem_bytes_false. intros Hin. rewrite h1_exclude_is_the_table in Hin.
+  cbn [In] in Hin. cbn [h1_writer_handled In] in Hn.
+  destruct Hin as [<-|[<-|[<-|[<-|[<-|[<-|[<-|[]]]]]]]]; try (apply Hn; tauto);
+    revert Hl; vm_compute; intuition discriminate.
+Qed.
+
+(* ... and is therefore written as the caller's own line, once per value, as spelled (next to the
+   writer's own Host / User-Agent / Content-Length line) *)
+Lemma h1_noncanonical_writer_name_kept q k vs v :
+  In (k, vs) (c_hdr q) -> In v vs ->
+  In (to_lower k) (map to_lower h1_writer_handled) -> ~ In k h1_writer_handled -> valid_field_name k = true ->
+  In (k, sanitize v) (h1_lines q).
+Proof.
+  intros Hin Hv Hl Hn Hval. apply (h1_spelling_preserved q k vs v); try assumption.
+  now apply h1_other_spelling_not_excluded.
+Qed.
